@@ -331,6 +331,26 @@ def check(program: Program, run: Run) -> None:
     # throws the alias the caller gave it away before any renderer sees it
     _rebuilt_from_name(program, run)
 
+    # ---- R8: an item handed to select() / returning() ... is dropped only by the documented subsumption under `*`; a
+    # de-duplication guard that compares a projection of the item (name, table) without its alias drops a *named* output
+    from ..families import early_drop_guards
+    STAR_STATE = ("_select_star", "_select_star_tables", "_return_star")
+    ng = 0
+    for f8, st8, guards8, later8, read8 in early_drop_guards(program):
+        accs = [a for k_, a in later8 if k_ == "acc"]
+        if not accs:
+            continue
+        ng += 1
+        star_only = all(any(isinstance(n, ast.Attribute) and n.attr in STAR_STATE for n in ast.walk(g)) for g in guards8)
+        ok8 = star_only or not read8 or "alias" in read8
+        run.ob("C12/R8 an item is dropped from a defining clause only under `*` or when an item of the same alias is there", f"{f8.qualname}:{st8.lineno}", ok8,
+               detail="; ".join(ast.unparse(g)[:60] for g in guards8), where=f8.loc(st8))
+        if not ok8:
+            run.finding(f"C12/item-dropped-ignoring-alias:{f8.qualname}:{accs[0]}",
+                        f"{f8.qualname} returns before adding its argument to {accs[0]} when `{ast.unparse(guards8[-1])[:80]}` holds: the test looks at {sorted(read8)} of the new item but not at its alias, "
+                        "so a second item over the same column loses the alias the caller gave it (the named output is never defined)", where=f8.loc(st8), rule="R8")
+    run.analysed["early_returns_before_accumulation"] = ng
+
     # ---- R4 references (judged inside the statement skeleton, i.e. with the context get_sql really passes)
     refs = [("QueryBuilder", "_group_sql", "_groupbys"), ("QueryBuilder", "_orderby_sql", "_orderbys"), ("_SetOperation", "_orderby_sql", "_orderbys")]
     for cn, m, attr in refs:
